@@ -56,6 +56,14 @@ def make_streams(R, tier, framed_only=False):
     pk = G.random_framed_stream(R, 6, max_payload=10000, nlinks=2)
     pk[0].rdh.update(fee=0x1003, link=1); pk[2].raw_payload = bytes(R.getrandbits(8) for _ in range(10000)); pk[3].raw_payload = b''
     out.append(('bigpayload', pk))
+    # packets of one link with small payloads between packets of another link whose payloads are near the
+    # 10 000-byte limit: under a filter the big ones are skipped (seek on a file, read-and-discard on a pipe)
+    pk = G.random_framed_stream(R, 9, max_payload=60, nlinks=1)
+    for i, p in enumerate(pk):
+        if i % 2 == 0: p.rdh.update(link=3, fee=0x2003)
+        else:
+            p.rdh.update(link=4, fee=0x3004); p.raw_payload = bytes(R.getrandbits(8) for _ in range(R.choice([8192, 8193, 9000, 10000])))
+    out.append(('bigskip', pk))
     if not framed_only:
         for i in range(3 if tier == 'quick' else 30):
             pk, meta = G.conforming_stream(R)
@@ -177,6 +185,7 @@ def run_c08(ck, ctx):
         os.makedirs(wd, exist_ok=True)
         if dest == 'file':
             outp = os.path.join(wd, 'out.raw')
+            open(outp, 'wb').write(b'stale content of an earlier run' * 3)      # an existing file must be replaced, not extended
             r = L.run_cli(flt_args(flt) + ['-o', outp], data, via=via, stats=False, workdir=wd)
             out = open(outp, 'rb').read() if os.path.exists(outp) else None
         else:
